@@ -68,12 +68,20 @@ def stable_hash(obj):
 
 
 def load_known(prop):
-    try:
-        with REAL_OPEN(KNOWN_FILE) as f:
-            data = json.load(f)
-    except FileNotFoundError:
-        return []
-    return [e for e in data.get("findings", []) if e.get("property") == prop]
+    """Entries of known_findings.json plus known_findings.d/*.json (one file per property is allowed)."""
+    files = [KNOWN_FILE]
+    ddir = os.path.join(VERIF, "known_findings.d")
+    if os.path.isdir(ddir):
+        files += [os.path.join(ddir, n) for n in sorted(os.listdir(ddir)) if n.endswith(".json")]
+    out = []
+    for fn in files:
+        try:
+            with REAL_OPEN(fn) as f:
+                data = json.load(f)
+        except FileNotFoundError:
+            continue
+        out += [e for e in data.get("findings", []) if e.get("property") == prop]
+    return out
 
 
 def sig_matches(entry, viol):
